@@ -23,6 +23,7 @@ import (
 	"berty.tech/go-orbit-db/stores"
 	"berty.tech/go-orbit-db/stores/operation"
 	"berty.tech/go-orbit-db/stores/replicator"
+	"berty.tech/go-orbit-db/verifhook"
 	"github.com/ipfs/boxo/path"
 	cid "github.com/ipfs/go-cid"
 	datastore "github.com/ipfs/go-datastore"
@@ -274,6 +275,7 @@ func (b *BaseStore) InitBaseStore(ipfs coreiface.CoreAPI, identity *identityprov
 	if err != nil {
 		return fmt.Errorf("unable to subscribe to replicator events: %w", err)
 	}
+	verifhook.Consumer(b.replicator.EventBus(), sub.Name())
 
 	go func() {
 		defer sub.Close()
@@ -340,6 +342,7 @@ func (b *BaseStore) InitBaseStore(ipfs coreiface.CoreAPI, identity *identityprov
 				}
 
 			}
+			verifhook.Processed(b.replicator.EventBus(), sub.Name())
 		}
 	}()
 
@@ -658,6 +661,7 @@ func (b *BaseStore) Sync(ctx context.Context, heads []ipfslog.Entry) error {
 		span.AddEvent("store-sync-head-verified")
 	}
 
+	ctx = verifhook.SpawnCtx(ctx)
 	go b.Replicator().Load(ctx, heads)
 
 	return nil
@@ -840,6 +844,7 @@ func (b *BaseStore) AddOperation(ctx context.Context, op operation.Operation, on
 	if err != nil {
 		return nil, fmt.Errorf("unable to append data on log: %w", err)
 	}
+	verifhook.Point("write.after-append", b, e)
 
 	b.recalculateReplicationStatus(e.GetClock().GetTime())
 
@@ -852,10 +857,12 @@ func (b *BaseStore) AddOperation(ctx context.Context, op operation.Operation, on
 	if err != nil {
 		return nil, fmt.Errorf("unable to add data to cache: %w", err)
 	}
+	verifhook.Point("write.after-persist", b, e)
 
 	if err := b.updateIndex(ctx); err != nil {
 		return nil, fmt.Errorf("unable to update index: %w", err)
 	}
+	verifhook.Point("write.after-index", b, e)
 
 	if err := b.emitters.evtWrite.Emit(stores.NewEventWrite(b.Address(), e, oplog.Heads().Slice())); err != nil {
 		b.logger.Warn("unable to emit event write", zap.Error(err))
@@ -960,12 +967,14 @@ func (b *BaseStore) replicationLoadComplete(ctx context.Context, logs []ipfslog.
 		entries = append(entries, log.GetEntries().Slice()...)
 	}
 
+	verifhook.Point("merge.after-join", b)
 	err := b.updateIndex(ctx)
 	if err != nil {
 		b.Logger().Error("unable to update index", zap.Error(err))
 		return
 	}
 
+	verifhook.Point("merge.after-index", b)
 	// only store heads that has been verified and merges
 	heads := oplog.Heads()
 
@@ -981,6 +990,7 @@ func (b *BaseStore) replicationLoadComplete(ctx context.Context, logs []ipfslog.
 		return
 	}
 
+	verifhook.Point("merge.after-persist", b)
 	if oplog.Len() > b.replicationStatus.GetProgress() {
 		b.recalculateReplicationStatus(oplog.Len())
 	}
@@ -1019,6 +1029,7 @@ func (b *BaseStore) storeListener(topic iface.PubSubTopic) error {
 	if err != nil {
 		return fmt.Errorf("unable to init event bus: %w", err)
 	}
+	verifhook.Consumer(b.EventBus(), sub.Name())
 
 	go func() {
 		defer sub.Close()
@@ -1032,6 +1043,7 @@ func (b *BaseStore) storeListener(topic iface.PubSubTopic) error {
 			}
 
 			evt := e.(stores.EventWrite)
+			verifhook.Begin("write.announce")
 			go func() {
 				// @TODO(gfanton): HandleEventWrite trigger a
 				// publish that is a blocking call if no peers
@@ -1039,11 +1051,13 @@ func (b *BaseStore) storeListener(topic iface.PubSubTopic) error {
 				// here
 				ctx, cancel := context.WithTimeout(b.ctx, time.Second*10)
 				defer cancel()
+				defer verifhook.End("write.announce")
 
 				if err := b.handleEventWrite(ctx, &evt, topic); err != nil {
 					b.logger.Warn("unable to handle EventWrite", zap.Error(err))
 				}
 			}()
+			verifhook.Processed(b.EventBus(), sub.Name())
 		}
 	}()
 
@@ -1123,6 +1137,7 @@ func (b *BaseStore) pubSubChanListener(topic iface.PubSubTopic) error {
 				}
 
 				// handle new peers
+				verifhook.Begin("peer.joined")
 				go b.onNewPeerJoined(evt.Peer)
 				b.logger.Debug(fmt.Sprintf("peer %s joined from %s self is %s", evt.Peer.String(), b.address, b.peerID))
 
@@ -1132,6 +1147,7 @@ func (b *BaseStore) pubSubChanListener(topic iface.PubSubTopic) error {
 			default:
 				b.logger.Debug("unhandled event, can't match type")
 			}
+			verifhook.End("sim.deliver")
 		}
 	}()
 
@@ -1143,11 +1159,13 @@ func (b *BaseStore) pubSubChanListener(topic iface.PubSubTopic) error {
 			err := b.messageMarshaler.Unmarshal(evt.Content, msg)
 			if err != nil {
 				b.logger.Error("unable to unmarshal head entries", zap.Error(err))
+				verifhook.End("sim.deliver")
 				continue
 			}
 
 			if len(msg.Heads) == 0 {
 				b.logger.Debug(fmt.Sprintf("Nothing to synchronize for %s:", b.address))
+				verifhook.End("sim.deliver")
 				continue
 			}
 
@@ -1161,6 +1179,7 @@ func (b *BaseStore) pubSubChanListener(topic iface.PubSubTopic) error {
 			if err := b.Sync(b.ctx, entries); err != nil {
 				b.logger.Debug(fmt.Sprintf("Error while syncing heads for %s:", b.address))
 			}
+			verifhook.End("sim.deliver")
 		}
 	}()
 
@@ -1168,6 +1187,7 @@ func (b *BaseStore) pubSubChanListener(topic iface.PubSubTopic) error {
 }
 
 func (b *BaseStore) onNewPeerJoined(p peer.ID) {
+	defer verifhook.End("peer.joined")
 	b.logger.Debug(fmt.Sprintf("%s: New peer '%s' connected to %s", b.peerID, p, b.id))
 
 	if err := b.exchangeHeads(p); err != nil {
